@@ -40,7 +40,7 @@ ASSUMPTIONS = {'C09': ['documented exceptions are encoded per catalogue entry: i
                        'tensors their methods return are checked']}
 EXPECTED_PROBES = {'C09': ['scribble_ops', 'result_reused', 'layout_F', 'layout_strided', 'layout_neg', 'layout_readonly', 'callback_monitor_points',
                            'inplace_calls', 'passthrough_calls', 'recheck_ops']}
-BUDGET = {'C09': {'quick': {'n': 24000, 'max_s': 150, 'chunk': 100}, 'thorough': {'n': 200000, 'max_s': 3000, 'chunk': 50}}}
+BUDGET = {'C09': {'quick': {'n': 24000, 'max_s': 150, 'chunk': 100}, 'thorough': {'n': 1500000, 'max_s': 3000, 'chunk': 200}}}
 NAMES = sorted(api.ENTRIES)
 LAYOUTS = ['C', 'C', 'F', 'strided', 'neg', 'readonly', 'offset']
 WEIGHTED = [nm for nm in NAMES for _ in range(api.ENTRIES[nm]['weight'])]
